@@ -95,7 +95,9 @@ in_bounds(void)
 static void
 h_step(int cap, int lo, int hi, int kind)
 {
-    static const char *const lines[5] = { "begin one", "begin zz", "end", "  ab c ", "# x" };
+    static const char *const lines[7] = { "begin one", "begin zz", "end", "  ab c ", "# x", "endian x", "beginner x" };
+    /* first 7 characters the handler must see for the ordinary-text kinds (a word that merely starts with a keyword is text) */
+    static const char *const seen[7] = { 0, 0, 0, "ab c", 0, "endian ", "beginne" };
     char buff[CONFIG_BUFF];
     void *top, *below;
     int topctx, d, i;
@@ -151,10 +153,17 @@ h_step(int cap, int lo, int hi, int kind)
             }
             break;
         case 3:
+        case 5:
+        case 6:
             CHECK("an ordinary line does not change the depth", ctx_state_idx == d);
             if (topctx) {
                 CHECK("an ordinary line is delivered exactly once to the innermost context, with its state", nlog == 1 && vlog[0].ctx == topctx && vlog[0].kind == 3 && vlog[0].in == top);
-                CHECK("surrounding whitespace removed", nlog == 1 && vlog[0].text[0] == 'a' && vlog[0].text[1] == 'b' && vlog[0].text[2] == ' ' && vlog[0].text[3] == 'c' && vlog[0].text[4] == 0);
+                for (i = 0; nlog == 1 && i < 7; i++) {
+                    CHECK("the line arrives with surrounding whitespace removed and nothing else changed", vlog[0].text[i] == (unsigned char) seen[kind][i]);
+                    if (!seen[kind][i]) {
+                        break;
+                    }
+                }
                 CHECK("the state the handler returns is the state it receives next", ctx_state[d].state == vlog[0].out);
             } else {
                 CHECK("in the null context no registered handler is called", nlog == 0);
